@@ -463,6 +463,9 @@ class ExtrasMixin:
         recv = sch
         return VBool(z3.Function("mv#ok", AnySort, AnySort, z3.BoolSort())(self.inject(recv), self.inject(d)))
 
+    def spec_is_str(self, node, frame):
+        return VBool(isinstance(self.eval(node.args[0], frame), VStr))
+
     def spec_is_obj(self, node, frame):
         v = self.eval(node.args[0], frame)
         return VBool(isinstance(v, VRef) and v.kind == "obj")
